@@ -32,3 +32,49 @@ Theorem quiescent_clean_udp ops :
   forall s, lcount (is_add s) (snd (lrun (ops ++ [LShutdown]))) = lcount (is_close s) (snd (lrun (ops ++ [LShutdown]))).
 Proof. exact (shutdown_expires_all_lemma ops). Qed.
 Print Assumptions quiescent_clean_udp.
+
+(* serving stops only after all running handlers have returned: for EVERY interleaving of
+   accepts, handler returns, handler panics and the closing of the listener (model of
+   StreamServe: theories/Serve.v) *)
+From OSS Require Import theories.Serve theories.ServeProofs.
+Theorem serve_returns_after_handlers tr s :
+  srun serve0 tr = Some s -> ph s = Returned ->
+  running s = 0%nat /\ finished s = accepted s /\ lopen s = false /\ cancelled s = true.
+Proof. exact (serve_returns_after_handlers_lemma tr s). Qed.
+Print Assumptions serve_returns_after_handlers.
+
+(* a panic in one handler is, for everybody else, an ordinary return of that handler *)
+Theorem handler_panic_isolated s s1 s2 :
+  sstep s SHandlerPanic = Some s1 -> sstep s SHandlerDone = Some s2 ->
+  ph s1 = ph s2 /\ lopen s1 = lopen s2 /\ running s1 = running s2 /\ accepted s1 = accepted s2 /\
+  finished s1 = finished s2 /\ cancelled s1 = cancelled s2 /\ ph s1 = ph s.
+Proof. exact (handler_panic_isolated_lemma s s1 s2). Qed.
+Print Assumptions handler_panic_isolated.
+
+(* every accepted connection is running or finished, at every point; once draining, the handlers'
+   returns are all that StreamServe waits for *)
+Theorem serve_accounting tr s :
+  srun serve0 tr = Some s -> accepted s = (finished s + running s)%nat /\ (panicked s <= finished s)%nat.
+Proof. exact (serve_accounting_lemma tr s). Qed.
+Print Assumptions serve_accounting.
+Theorem serve_drains s :
+  ph s = Draining ->
+  exists s', srun s (repeat SHandlerDone (running s) ++ [SReturn]) = Some s' /\ ph s' = Returned.
+Proof. exact (serve_drains_lemma s). Qed.
+Print Assumptions serve_drains.
+
+(* the source has the shape the model assumes (regenerated from service/tcp.go on every run):
+   running.Wait() is the FIRST deferred call (so it runs last, after the cancel); the loop is
+   left only on ErrClosed; every handler goroutine is counted before it starts and its
+   deferred calls un-count it, close the connection and recover a panic *)
+From OSS Require Gen.Consts.
+From Coq Require String.
+Import String.StringSyntax.
+Delimit Scope string_scope with string.
+Theorem serve_source_shape :
+  Gen.Consts.serve_defers = ["running.Wait()"; "contextCancel()"]%string /\
+  Gen.Consts.serve_loop_exits = ["break if err != nil && errors.Is(err, net.ErrClosed)"]%string /\
+  Gen.Consts.serve_handler_defers = ["running.Done()"; "clientConn.Close()"; "recover"]%string /\
+  Gen.Consts.serve_add_before_go = true.
+Proof. repeat split; reflexivity. Qed.
+Print Assumptions serve_source_shape.
